@@ -429,6 +429,14 @@ static void history(uint64_t idx, rng_t *r) {
         if (op != OP_CLONE && op < OP_OR) note_transition(op, before, after);
         if (op >= OP_CODEC) note_transition(op, before, after);
         ok = check_light(s, r, touched, nt);
+        if (ok && rng_chance(r, 1, 24)) {
+            /* the container "optimisation" entry point must never change the set */
+            g_opname = "varintBitmapOptimize";
+            snprintf(g_opargs, sizeof g_opargs, "slot %d [%s card %u]", s, TN[after], MOD[s]->card);
+            varintBitmapOptimize(OBJ[s]);
+            ok = check_full(s, false);
+            STAT_INC("c08_optimize_calls");
+        }
         if (ok && (before != after || (g_step & 7) == 7 || op == OP_ADDRANGE || op == OP_ADDMANY || op == OP_CLEAR)) ok = check_full(s, false);
         STAT_INC("c08_operations");
     }
